@@ -114,6 +114,10 @@ GENERATED_ONLY = {
 }
 GENERATED_ONLY["t_or"] = F(["n", "n"], "agg", props=("C30",))
 GENERATED_ONLY["t_reduce_watermark"] = F(["kv", "n"], "keyed", props=("C30",))
+for _n in ("f_join_bl", "f_join_bb", "f_cross_bl"):
+    GENERATED_ONLY[_n] = F(["kv" if "join" in _n else "n"], "unord", heavy=True)
+for _n in ("f_join_br", "f_cross_br"):
+    GENERATED_ONLY[_n] = F(["kv" if "join" in _n else "n"], "ord", heavy=True, props=("C28", "C29"))
 for _n in ("x_across_count", "x_across_fold", "x_across_unique"):
     GENERATED_ONLY[_n] = F(["n"], "agg" if _n != "x_across_unique" else "ord", props=("C30",))
 FLOWS.update(GENERATED_ONLY)
@@ -285,6 +289,27 @@ def gen_partition_cases(rng, tier, flows, small_inputs=2, large_parts=8, small_t
     return cases
 
 
+def gen_repeat_cases(rng, tier, flows):
+    """the SAME item arriving in consecutive ticks (a replaying join followed by multiset_delta must not
+    swallow it), and the same pattern with empty ticks in between; other inputs arrive in tick 0"""
+    cases = []
+    for flow in flows:
+        kinds = FLOWS[flow]["inputs"]
+        j = len(kinds) - 1
+        for _ in range(4 if tier == "thorough" else 2):
+            x, y = gen_item(rng, kinds[j]), gen_item(rng, kinds[j])
+            others = {INPUT_NAMES[i]: gen_input(rng, kinds[i], rng.range(1, 3)) for i in range(j)}
+            n = INPUT_NAMES[j]
+            for src, pat in (("repeat", [[x], [x], [y, x], [x]]), ("repeat_gap", [[x], [], [x], [], [y], [x]])):
+                ticks = []
+                for t, items in enumerate(pat):
+                    tk = {m: (v if t == 0 else []) for m, v in others.items()}
+                    tk[n] = items
+                    ticks.append(tk)
+                cases.append({"flow": flow, "ticks": ticks, "src": src})
+    return cases
+
+
 def interleavings(rng, per_key, count):
     """random cross-key interleavings preserving every key's own order"""
     outs = []
@@ -422,7 +447,6 @@ MODELLED_NODES = {
     "AssertIsConsistent": "identity in production (after fold / reduce)",
     "Batch": "identity in production", "YieldConcat": "identity in production (all_ticks)",
     "Chain": "SUnion (merge_unordered) / BChain", "Join": "SJoin / SCross (cross_product = maps + join)",
-    "JoinHalf": "BJoin / BCross (bounded right side)",
     "AntiJoin": "SAntiJoin / BAntiJoin", "Map": "SMap / AMap / BMap", "FlatMap": "SFlatMap / BFlatMap",
     "Filter": "SFilter / BFilter", "FilterMap": "SFilterMap", "Inspect": "SInspect",
     "Enumerate": "SEnumerate / BEnumerate", "Unique": "SUnique / BUnique",
@@ -432,6 +456,7 @@ MODELLED_NODES = {
     "DeferTick": "BDefer", "Sort": "BSort", "CrossSingleton": "BCrossSingleton",
     "CycleSource": "loop_run (tick cycle)", "Scan": "SGen / BGen (generator: first / limit)",
     "Tee": "shared subterm duplicated (translator), structural tee()",
+    "JoinHalf": "SJoinHalf (top level, Bounded right side) / BJoin / BCross",
     "ChainFirst": "BChainFirst (Optional::or in a tick)",
     "ReduceKeyedWatermark": "BReduceKeyedWm (in a tick)",
 }
@@ -831,10 +856,18 @@ def _order(v):
 
 
 def _iter_vals(expr):
-    m = re.search(r"vec\s*!\s*\[([^\]]*)\]", expr)
+    """items of `vec![...]` in a source_iter expression: integers or (nested) tuples of integers"""
+    body = closure_sig(expr)
+    m = re.match(r"^vec\s*!\s*\[(.*)\]$", body, re.S)
     if not m:
-        raise Untranslatable("source_iter expression " + expr[:80])
-    return [int(re.sub(r"[a-z]\w*$", "", t.strip())) for t in m.group(1).split(",") if t.strip()]
+        raise Untranslatable("source_iter expression " + body[:80])
+    txt = re.sub(r"(\d+)\s*[a-z]\w*", r"\1", m.group(1))     # 1u32 -> 1
+    txt = txt.replace("(", "[").replace(")", "]")
+    try:
+        import json as _json
+        return _json.loads("[" + txt + "]")
+    except Exception:
+        raise Untranslatable("source_iter items " + m.group(1)[:80])
 
 
 def _src_index(v):
@@ -914,6 +947,8 @@ def tr_s(x):
         return "(SUnion %s %s)" % (tr_s(v["first"]), tr_s(v["second"]))
     if k == "Join":
         return "(SJoin %s %s)" % (tr_s(v["left"]), tr_s(v["right"]))
+    if k == "JoinHalf":
+        return "(SJoinHalf %s %s)" % (tr_s(v["left"]), tr_s(v["right"]))
     if k == "AntiJoin":
         nk, nv = _node(v["neg"])
         if nk != "Source" or "Iter" not in nv["source"]:
